@@ -6,7 +6,7 @@ from facts import callee_path, is_param_call
 from model import short
 from rules_sched import (CHILDREN, PARENTS, NODE_INDEX, NODE_COUNT_FNS, ALL_NODE_SOURCES, elem_read, node_index_arg, is_const,
                          const_val, sources_of_expr, stores_through_index, structure_roles, iterator_chain, closure_of_arg,
-                         return_expr, same_value, cond_guards, NEUTRAL_ITER, SELECTIVE_ITER)
+                         return_expr, same_value, cond_guards, NEUTRAL_ITER, SELECTIVE_ITER, loop_region)
 
 UPDATE_EDGE = "daggy::Dag::<N, E, Ix>::update_edge"
 ADD_EDGE = "daggy::Dag::<N, E, Ix>::add_edge"
@@ -37,13 +37,16 @@ def build_reach(ctx):
 # ---------------------------------------------------------------------------
 # symbolic path conditions of a small acyclic region
 
-def path_conditions(body, target_bb, max_paths=4000):
-    """Enumerate decision paths from the entry to `target_bb` in an acyclic
-    body, with constant propagation of bool locals along the path.  Returns
-    a list of dicts {symbol: value}, symbol = ('call', bb) | ('read', expr-string).
-    None if the body has loops or too many paths."""
-    if body.back_edges():
-        return None
+def path_conditions(body, target_bb, max_paths=4000, sym_bb=None, ret_local=None):
+    """Enumerate decision paths from the entry to `target_bb` with constant
+    propagation of bool locals along the path; in a body with loops the paths
+    of one iteration (back edges are not followed).  Returns a list of dicts
+    {symbol: value}, symbol = ('call', bb) | ('read', expr-string) ...;
+    sym_bb (dict) receives the switch block(s) deciding each symbol; with
+    ret_local every dict also maps '$ret' to the symbol held by that local at
+    the target.  None if there are too many paths."""
+    fsucc = body.forward_succ()
+    can_reach = set(x for x in range(len(body.blocks)) if x == target_bb or target_bb in body.reachable(x, succ=fsucc))
     defs = get_defs(body)
     out = []
     count = [0]
@@ -75,11 +78,24 @@ def path_conditions(body, target_bb, max_paths=4000):
     def walk(bb, env, dec):
         if count[0] > max_paths:
             return
-        if bb == target_bb:
-            out.append(dict(dec))
-            count[0] += 1
+        if bb not in can_reach:
             return
         blk = body.blocks[bb]
+        if bb == target_bb:
+            d_ = dict(dec)
+            if ret_local is not None:
+                env2 = dict(env)
+                for s in blk["stmts"]:
+                    if s["k"] == "assign" and not s["pl"]["p"] and s["pl"]["l"] == ret_local:
+                        rv = s["rv"]
+                        if rv["k"] == "use" and rv["op"]["k"] == "const":
+                            env2[ret_local] = ("const", rv["op"].get("bits", rv["op"]["val"]))
+                        elif rv["k"] == "use" and not rv["op"]["pl"]["p"]:
+                            env2[ret_local] = sym_of_local(rv["op"]["pl"]["l"], env2)
+                d_["$ret"] = sym_of_local(ret_local, env2)
+            out.append(d_)
+            count[0] += 1
+            return
         env = dict(env)
         for s in blk["stmts"]:
             if s["k"] == "assign" and not s["pl"]["p"]:
@@ -101,6 +117,8 @@ def path_conditions(body, target_bb, max_paths=4000):
             arms = [(v, tb) for v, tb in t["targets"]] + [("otherwise", t["otherwise"])]
             listed = [v for v, _ in t["targets"]]
             for v, tb in arms:
+                if tb not in fsucc[bb]:
+                    continue
                 if sym[0] == "const":
                     cv = str(sym[1])
                     if cv in ("true", "false"):
@@ -118,9 +136,11 @@ def path_conditions(body, target_bb, max_paths=4000):
                             continue
                     d2 = dict(dec)
                     d2[sym] = v
+                    if sym_bb is not None:
+                        sym_bb.setdefault(sym, set()).add(bb)
                     walk(tb, env, d2)
         else:
-            for s in body.succs(bb):
+            for s in fsucc[bb]:
                 walk(s, env, dec)
 
     walk(0, {}, {})
@@ -200,18 +220,53 @@ def conflict_model(ctx):
     b, bb, t, p = sites[0]
     a_e = strip_refs(expr_operand(b, t["args"][1]))
     b_e = strip_refs(expr_operand(b, t["args"][2]))
-    acc = access_calls(ctx, b)
+    acc = dict(access_calls(ctx, b))
     decl_role = {}
-    for abb, (kind, idv, e) in acc.items():
-        node = None
+
+    def node_of(idv):
+        # node identity is syntactic (same place after copy propagation): both
+        # endpoints are elements of the same list, so value sources cannot tell them apart
         if idv is not None:
-            # node identity is syntactic (same place after copy propagation): both
-            # endpoints are elements of the same list, so value sources cannot tell them apart
             if strip_refs(idv) == a_e and a_e != b_e:
-                node = "A"
-            elif strip_refs(idv) == b_e and a_e != b_e:
-                node = "B"
-        decl_role[(b.id, abb)] = (node, kind)
+                return "A"
+            if strip_refs(idv) == b_e and a_e != b_e:
+                return "B"
+        return None
+    for abb, (kind, idv, e) in acc.items():
+        decl_role[(b.id, abb)] = (node_of(idv), kind)
+    # declarations read inside a crate-local predicate helper called from the insertion body:
+    # the helper's parameter is identified with the node whose weight is passed at the call site
+    helpers = {}
+    for hbb, ht in b.calls():
+        c = ht.get("callee") or {}
+        r = c.get("resolved")
+        target = r["path"] if isinstance(r, dict) and r.get("local") and r["path"] in ctx.fb.bodies else (
+            c.get("path") if c.get("local") and c.get("path") in ctx.fb.bodies else None)
+        if target is None or ctx.fb.bodies[target].kind != "fn":
+            continue
+        H = ctx.fb.bodies[target]
+        hacc = access_calls(ctx, H)
+        if not hacc:
+            continue
+        helpers[hbb] = H
+        for abb, (kind, idv, e) in hacc.items():
+            root = e
+            while root.kind in ("ref", "deref", "cast"):
+                root = root[2] if root.kind == "ref" else root[1]
+            node = None
+            if root.kind == "arg" and 1 <= root[1] <= len(ht["args"]):
+                ae = strip_refs(expr_operand(b, ht["args"][root[1] - 1]))
+                idv2 = None
+                for c2 in walk_expr(ae):
+                    if c2.kind == "call" and c2[1] in ("std::ops::Index::index", "daggy::Dag::<N, E, Ix>::node_weight"):
+                        idv2 = strip_refs(c2[2][1])
+                        break       # outermost lookup: the id expression itself may contain list[index..]
+                node = node_of(idv2)
+            prev = decl_role.get((H.id, abb))
+            if prev is not None and prev[0] != node:
+                node = None
+            decl_role[(H.id, abb)] = (node, kind)
+            acc[(H.id, abb)] = (kind, None, e)
     pairs = []
     unknown = []
     for (cb, cbb, ct, sides) in typeid_comparisons(ctx):
@@ -226,7 +281,7 @@ def conflict_model(ctx):
                     unknown.append((cb, cbb, "declaration of an unidentified node"))
                 else:
                     pairs.append((cb, cbb, rl, rr))
-    return {"site": sites[0], "a": a_e, "b": b_e, "decl_role": decl_role, "pairs": pairs, "unknown": unknown, "access": acc}
+    return {"site": sites[0], "a": a_e, "b": b_e, "decl_role": decl_role, "pairs": pairs, "unknown": unknown, "access": acc, "helpers": helpers}
 
 
 def same_value_expr(ctx, body, e1, e2):
@@ -266,7 +321,7 @@ def R1(ctx, rule="R1"):
         ctx.check(n in norm, rule, "pair|%s-%s" % n, where,
                   "the conflict predicate compares A.%s declarations with B.%s declarations" % n,
                   "the conflict predicate never compares A.%s with B.%s: such a conflict gets no Data edge and both functions run together" % n)
-    ctx.check(len(cm["access"]) >= 4 and all(v[0] for v in cm["decl_role"].values()), rule, "decls", where,
+    ctx.check(len(cm["decl_role"]) >= 4 and all(v[0] for v in cm["decl_role"].values()), rule, "decls", where,
               "the four access-declaration reads (A/B x borrows/borrow_muts) are taken of the two endpoints of the inserted edge",
               "access declarations are not read from exactly the two endpoints: %s" % sorted(str(v) for v in cm["decl_role"].values()))
     # the insertion is taken iff any of the comparisons holds (truth table over the `any` results)
@@ -278,26 +333,73 @@ def R1_truth_table(ctx, rule, cm):
     m, fl = ctx.model, ctx.model.flow
     b, bb, t, p = cm["site"]
     where = m.where(b, bb)
-    pcs = path_conditions(b, bb)
+    sym_bb = {}
+    pcs = path_conditions(b, bb, sym_bb=sym_bb)
     if pcs is None:
-        ctx.unverifiable(rule, "truth-table", where, "the body containing the Data-edge insertion has loops / too many paths for path enumeration")
+        ctx.unverifiable(rule, "truth-table", where, "the body containing the Data-edge insertion has too many paths for path enumeration")
         return
+    cm["sym_bb"] = sym_bb
     # symbols that are results of calls whose closure (transitively) contains a declaration comparison
     cmp_bodies = {}
     for (cb, cbb, rl, rr) in cm["pairs"]:
         n = norm_pair(rl, rr)
         x = cb
-        while x is not None and x.id != b.id:
+        while x is not None:
             cmp_bodies.setdefault(x.id, set()).add(n)
             x = ctx.fb.bodies.get(x.parent) if x.parent else None
-    clause_of_sym = {}
-    for cbb2, t2 in b.calls():
-        # a call whose closure argument leads to comparisons
-        for a in t2["args"]:
-            if a["k"] != "const":
-                ty = b.locals[a["pl"]["l"]]
-                if ty.get("k") == "closure" and ty.get("def") in cmp_bodies:
-                    clause_of_sym[("call", cbb2)] = frozenset(cmp_bodies[ty["def"]])
+
+    def clause_syms(body):
+        out = {}
+        for cbb2, t2 in body.calls():
+            # a call whose closure argument leads to comparisons
+            for a in t2["args"]:
+                if a["k"] != "const":
+                    ty = body.locals[a["pl"]["l"]]
+                    if ty.get("k") == "closure" and ty.get("def") in cmp_bodies:
+                        out[("call", cbb2)] = frozenset(cmp_bodies[ty["def"]])
+        return out
+    clause_of_sym = clause_syms(b)
+    import itertools
+    # a predicate helper: its return value must be the disjunction of its comparison clauses
+    for hbb, H in sorted(cm.get("helpers", {}).items()):
+        hsyms = clause_syms(H)
+        rets = H.exits()
+        hp = path_conditions(H, rets[0], ret_local=0) if len(rets) == 1 and hsyms else None
+        if not hp:
+            ctx.unverifiable(rule, "helper|%s" % short(H.id), m.where(H), "cannot enumerate the paths of the predicate helper")
+            continue
+        hs = sorted(hsyms)
+        extra = set()
+        h_ok = True
+        for vals in itertools.product([False, True], repeat=len(hs)):
+            asg = dict(zip(hs, vals))
+            results = set()
+            for pc in hp:
+                good = True
+                for s_, v in pc.items():
+                    if s_ == "$ret":
+                        continue
+                    if s_ in asg:
+                        if (v != "0") != asg[s_]:
+                            good = False
+                            break
+                    else:
+                        extra.add(s_)
+                if not good:
+                    continue
+                rs = pc["$ret"]
+                if rs[0] == "const":
+                    results.add(str(rs[1]) not in ("0", "false"))
+                elif rs in asg:
+                    results.add(asg[rs])
+                else:
+                    results.add("?")
+            if results != {any(vals)}:
+                h_ok = False
+        ctx.check(h_ok and not extra, rule, "helper-table|%s" % short(H.id), m.where(H),
+                  "the predicate helper returns true iff at least one of its %d declaration comparisons holds" % len(hs),
+                  "the predicate helper is not the disjunction of its declaration comparisons (other conditions: %s)" % sorted(map(str, extra))[:4])
+        clause_of_sym[("call", hbb)] = frozenset(x for v in hsyms.values() for x in v)
     if not clause_of_sym:
         ctx.unverifiable(rule, "truth-table", where, "cannot relate the guard of the insertion to the comparison closures")
         return
@@ -309,7 +411,6 @@ def R1_truth_table(ctx, rule, cm):
             if s_ not in clause_of_sym:
                 other_syms.add(s_)
     # for each assignment of the clause symbols: reachable?
-    import itertools
     table = {}
     for vals in itertools.product([False, True], repeat=len(syms)):
         asg = dict(zip(syms, vals))
@@ -381,12 +482,32 @@ def R2(ctx, rule="R2", strict_order=True):
         ctx.obs = [o for o in ctx.obs if o.rule != rule + ".tt"]
     n_ok = 0
     ranks_srcs = None
+    lr_in = loop_region(ctx, b, bb)
+    lr_out = loop_region(ctx, b, bb, skip_headers=(lr_in["header"],)) if lr_in else None
+    driver_switches = {lr["switch_bb"] for lr in (lr_in, lr_out) if lr and lr.get("switch_bb") is not None}
     for sym in sorted(cm.get("other_syms", []), key=str):
         kind = sym[0]
         cls = None
+        if kind == "discr" and driver_switches and cm.get("sym_bb", {}).get(sym) and cm["sym_bb"][sym] <= driver_switches:
+            ctx.ok(rule, "loop-driver|%s" % sorted(cm["sym_bb"][sym])[0], where,
+                   "`for` loop over the id list: the insertion body runs for every element the iterator yields")
+            n_ok += 1
+            continue
         if kind == "call":
             t2 = b.blocks[sym[1]]["term"]
             p2 = callee_path(t2)
+            if p2 in ("std::cmp::PartialEq::eq", "std::cmp::PartialEq::ne") and \
+                    "daggy::NodeIndex<" in (((t2.get("callee") or {}).get("self_ty") or {}).get("s") or ""):
+                x1 = strip_refs(expr_operand(b, t2["args"][0]))
+                x2 = strip_refs(expr_operand(b, t2["args"][1]))
+                vals = {pc[sym] for pc in cm["pcs"] if sym in pc}
+                ok = ((x1 == cm["a"] and x2 == cm["b"]) or (x1 == cm["b"] and x2 == cm["a"])) and cm["a"] != cm["b"] and (
+                    (p2.endswith("::eq") and vals == {"0"}) or (p2.endswith("::ne") and "0" not in vals))
+                ctx.check(ok, rule, "identity", m.where(b, sym[1]),
+                          "the only pair skipped by the id comparison is (a, a)",
+                          "an id comparison other than `a != b` of the two endpoints guards the insertion")
+                n_ok += 1
+                continue
             if p2 == HAS_PATH:
                 # same endpoints, same order, same graph
                 a2 = strip_refs(expr_operand(b, t2["args"][1]))
@@ -454,10 +575,17 @@ def seen_flag_reset(ctx, cm):
                     flags.add((s_[1], s_[2]))
     if not flags:
         return False, "seen-flag vector not found"
-    uses = fl.closure_uses(b)
-    if len(uses) != 1:
+    uses = fl.closure_uses(b) if b.kind == "closure" else []
+    loop_form = None
+    if b.kind != "closure":
+        lr_in = loop_region(ctx, b, cm["site"][1])
+        lr_out = loop_region(ctx, b, cm["site"][1], skip_headers=(lr_in["header"],)) if lr_in else None
+        if lr_in is None or lr_out is None:
+            return False, "the insertion is not inside two nested loops over the id list"
+        loop_form = (lr_in, lr_out)
+    elif len(uses) != 1:
         return False, "inner closure not passed to one consumer"
-    ob, ubb, ut, ai = uses[0]
+    ob, ubb, ut, ai = uses[0] if uses else (b, None, None, None)
     # who writes the flags: only `fill(false)` and the test-and-set of the inner element's own flag
     for body in build_reach(ctx):
         idx_stores = {st["index_bb"]: st for st in stores_through_index(body)}
@@ -485,6 +613,18 @@ def seen_flag_reset(ctx, cm):
                     continue
                 else:
                     return False, "the flag vector is mutated by %s in %s" % (p, short(body.id))
+    if loop_form is not None:
+        lr_in, lr_out = loop_form
+        between = lr_out["blocks"] - lr_in["blocks"]
+        if all(k[0] == b.id and k[1] in between for k in flags):
+            return True, ""
+        for bb, t in b.calls():
+            if callee_path(t) == "std::slice::<impl [T]>::fill" and bb in between and b.dominates(bb, lr_in["header"]):
+                srcs = fl.sources_operand(b, t["args"][0])
+                val = strip_refs(expr_operand(b, t["args"][1]))
+                if any(s_.kind == "alloc" and (s_[1], s_[2]) in flags for s_ in srcs) and is_const(val, 0):
+                    return True, ""
+        return False, "no `fill(false)` of the flag vector in the outer loop body before the inner loop in %s" % short(b.id)
     # allocated inside the outer closure?
     if all(k[0] == ob.id for k in flags):
         return True, ""
@@ -502,6 +642,22 @@ def R2_chain_filters(ctx, rule, cm):
     m, fl = ctx.model, ctx.model.flow
     b, bb, t, p = cm["site"]
     x = b
+    # `for` loops around the insertion in its own body
+    skip = ()
+    while True:
+        lr = loop_region(ctx, b, bb, skip_headers=skip)
+        if lr is None:
+            break
+        skip = skip + (lr["header"],)
+        if lr["early_exits"]:
+            ctx.bad(rule, "loop-exit|%s" % short(b.id), m.where(b, lr["early_exits"][0][0]),
+                    "the pair enumeration loop can be left early (break/return): later pairs are not examined")
+        chain = iterator_chain(ctx, b, lr["iter_expr"]) if lr.get("iter_expr") is not None else []
+        for p2, cb, e in chain:
+            if p2 in SELECTIVE_ITER and p2 != "std::iter::Iterator::filter":
+                ctx.bad(rule, "narrowed|%s" % short(cb.id), m.where(cb), "the pair enumeration is narrowed by %s" % p2)
+            elif p2 == "std::iter::Iterator::filter":
+                check_id_filter(ctx, rule, cb, e)
     while x is not None and x.kind == "closure":
         uses = fl.closure_uses(x)
         if len(uses) != 1:
@@ -515,6 +671,8 @@ def R2_chain_filters(ctx, rule, cm):
         chain = iterator_chain(ctx, pb, expr_operand(pb, ut["args"][0]))
         for p2, cb, e in chain:
             if p2 == "std::iter::Iterator::filter":
+                check_id_filter(ctx, rule, cb, e)
+            elif False:
                 fcl = closure_of_arg(ctx, cb, e[2][1])
                 ok = False
                 why = "filter closure not found"
@@ -538,6 +696,29 @@ def R2_chain_filters(ctx, rule, cm):
             elif p2 in SELECTIVE_ITER and p2 != "std::iter::Iterator::filter":
                 ctx.bad(rule, "narrowed|%s" % short(cb.id), m.where(cb), "the pair enumeration is narrowed by %s" % p2)
         x = pb if pb.kind == "closure" else None
+
+
+def check_id_filter(ctx, rule, cb, e):
+    """a filter on the pair enumeration may only be identity of the two ids (`a != b`)"""
+    m = ctx.model
+    fcl = closure_of_arg(ctx, cb, e[2][1])
+    ok = False
+    why = "filter closure not found"
+    if fcl is not None:
+        re_ = return_expr(fcl)
+        if re_ is not None and re_.kind == "call" and re_[1] in ("std::cmp::PartialEq::ne", "std::cmp::PartialEq::eq"):
+            s1 = sources_of_expr(ctx, fcl, strip_refs(re_[2][0]), mode="taint")
+            s2 = sources_of_expr(ctx, fcl, strip_refs(re_[2][1]), mode="taint")
+            ranky = [s for s in (set(s1) | set(s2)) if s.kind == "param" and "ranks" in str(s)]
+            cal = (fcl.blocks[re_[3]]["term"].get("callee") or {})
+            on_ids = "daggy::NodeIndex<" in ((cal.get("self_ty") or {}).get("s") or "")
+            ok = re_[1] == "std::cmp::PartialEq::ne" and not ranky and on_ids
+            why = "filter is `%s`%s" % (fmt_expr(re_, fcl), "" if on_ids else " (not a comparison of the two ids)")
+        else:
+            why = "filter predicate is `%s`" % (fmt_expr(re_, fcl) if re_ is not None else "?")
+    ctx.check(ok, rule, "filter|%s" % short(cb.id), m.where(cb),
+              "the only filter on the pair enumeration is identity of the two ids (`a != b`)",
+              "the pair enumeration is filtered by something other than id identity: %s" % why)
 
 
 def R3(ctx, rule="R3", parts=("structures", "counts", "graph-field")):
@@ -955,6 +1136,12 @@ def D2(ctx, rule="D2"):
         return
     b, bb, t, p = cm["site"]
     where = m.where(b, bb)
+    # loop form: two nested `for` loops in the augmenter's own body
+    lr_in = loop_region(ctx, b, bb) if b.kind != "closure" else None
+    lr_out = loop_region(ctx, b, bb, skip_headers=(lr_in["header"],)) if lr_in else None
+    if lr_in is not None and lr_out is not None:
+        D2_loops(ctx, rule, cm, lr_in, lr_out)
+        return
     # b is the inner closure; its parameter is the inner element, `a` comes from the outer closure's item
     inner_uses = fl.closure_uses(b)
     if len(inner_uses) != 1 or b.parent is None:
@@ -1021,6 +1208,66 @@ def D2(ctx, rule="D2"):
     ctx.check(ok_outer, rule, "direction", where,
               "the Data edge goes from the outer (earlier-sorted) element to an element at a later position of the same sorted list",
               "edge direction / list identity not established: %s" % why)
+
+
+def loop_item_path(e):
+    """e = ((next(..) as Some).0).f1.f2.. -> (bb of the next call, (f1, f2, ..))"""
+    path = []
+    e = strip_refs(e)
+    while e.kind == "field":
+        path.append(e[2])
+        e = strip_refs(e[1])
+    if e.kind == "downcast" and e[2] == "Some":
+        c = strip_refs(e[1])
+        if c.kind == "call" and len(c) > 3 and path and path[-1] == 0:
+            path.pop()
+            path.reverse()
+            return c[3], tuple(path)
+    return None
+
+
+def D2_loops(ctx, rule, cm, lr_in, lr_out):
+    m = ctx.model
+    b, bb, t, p = cm["site"]
+    where = m.where(b, bb)
+    ichain = iterator_chain(ctx, b, lr_in["iter_expr"])
+    idxs = [(p2, cb, e) for p2, cb, e in ichain if p2 in ("std::ops::Index::index",)]
+    ok_inner = False
+    why = "inner iteration is not list[index..]"
+    outer_idx = None
+    list_inner = frozenset()
+    if idxs:
+        p2, cb, e = idxs[-1]
+        rng = strip_refs(e[2][1])
+        if rng.kind == "agg" and rng[2] == "std::ops::RangeFrom":
+            outer_idx = strip_refs(rng[4][0])
+            ok_inner = True
+            list_inner = sources_of_expr(ctx, cb, e[2][0])
+        elif rng.kind == "agg":
+            why = "inner iteration ranges over `%s`" % fmt_expr(rng, cb)
+    sel = [p2 for p2, cb, e in ichain if p2 in SELECTIVE_ITER or p2 == "std::iter::Iterator::rev"]
+    ctx.check(ok_inner and not sel, rule, "inner-range", m.where(b, lr_in["next_bb"]),
+              "the inner loop ranges over list[outer_index..] (later positions only), in list order", why if not ok_inner else "inner iteration adaptors %s" % sel)
+    if not ok_inner:
+        return
+    ochain = iterator_chain(ctx, b, lr_out["iter_expr"])
+    names = [c[0] for c in ochain]
+    n_rev = names.count("std::iter::Iterator::rev")
+    ctx.check("std::iter::Iterator::enumerate" in names and n_rev % 2 == 1, rule, "outer-descending", m.where(b, lr_out["next_bb"]),
+              "the outer loop walks the ascending-sorted list from its end (highest rank first): when an element is examined, "
+              "every Data edge among later elements already exists, so has_path_connecting suppresses every implied ordering",
+              "the outer loop does not enumerate the sorted list from its end (chain %s): Data edges that repeat an implied ordering are added" % [n.split("::")[-1] for n in names])
+    ia, ib, ii = loop_item_path(cm["a"]), loop_item_path(cm["b"]), loop_item_path(outer_idx)
+    idx_ok = ii == (lr_out["next_bb"], (0,))
+    a_ok = ia == (lr_out["next_bb"], (1,))
+    b_ok = ib == (lr_in["next_bb"], ())
+    srcl = sources_of_expr(ctx, b, ochain[-1][2][2][0]) if ochain and ochain[-1][2][2] else frozenset()
+    same_list = bool(srcl) and {(s[1], s[2]) for s in srcl if s.kind == "alloc" and not s[3]} == \
+        {(s[1], s[2]) for s in list_inner if s.kind == "alloc" and not s[3]} and any(s.kind == "alloc" and not s[3] for s in srcl)
+    ctx.check(idx_ok and a_ok and b_ok and same_list, rule, "direction", where,
+              "the Data edge goes from the outer (earlier-sorted) element to an element at a later position of the same sorted list",
+              "edge direction / list identity not established: index from enumerate: %s, `from` is outer element: %s, same list: %s, `to` is inner element: %s" % (
+                  idx_ok, a_ok, same_list, b_ok))
 
 
 NONDET_PAT = ("std::time::", "std::thread::", "rand::", "std::env::", "std::process::id", "std::ptr::addr", "getrandom",
